@@ -157,6 +157,14 @@ class AccessorTie:
         self.frags = self.frag_list(loader)
         self.fi = {name: i for i, (name, _) in enumerate(self.frags)}
         self.el: dict[int, t.Any] = {}
+        if any(tr.root.getparent() is not None for _n, tr in self.frags):
+            # the root of a fragment file sits inside another file's tree: the post-state of the known findings
+            # `fragment-root-moved-into-another-file|…` (C08) – one element sequence is then iterated by two files, which
+            # the per-fragment index model cannot represent; the monitors judge the step, the tie stops for this history
+            self.decline("load:fragment-root-inside-another-tree")
+            self.out.hit("acc.load-refused")
+            self.close()
+            return
         frags = []
         for name, tr in self.frags:
             rows = []
